@@ -238,7 +238,7 @@ class SymExec:
                 if n is not None:
                     lo, hi = e[1], (n - e[2] if e[3] else e[2])
                     if 0 <= lo <= hi <= n:
-                        v = ("agg", "array", None, None, tuple(proj_read(v, ("ci", i, False)) for i in range(lo, hi)))
+                        v = ("agg", "array", None, 0, tuple(proj_read(v, ("ci", i, False)) for i in range(lo, hi)))
                         cur = None
                         continue
             v = proj_read(v, e)
@@ -485,7 +485,7 @@ class SymExec:
                     n_ = int(a_["val"])
             elems = self.from_fn_elems(st, args[0], n_, site) if n_ is not None and n_ <= 512 else None
             if elems is not None:
-                v = ("agg", "array", None, None, tuple(elems))
+                v = ("agg", "array", None, 0, tuple(elems))
                 dest = self.place_loc(st, t["dest"])
                 self.write(st, dest, v)
                 return {"k": "call", "name": name, "args": args, "locargs": args, "term": v, "inlined": True, "ret": v, "site": site, "dest": dest, "from_fn": (args[0][2], n_)}
@@ -966,7 +966,7 @@ def proj_read(v, e):
     if k == "ss":
         if not e[3] and isinstance(e[1], int) and isinstance(e[2], int) and 0 <= e[1] <= e[2] and e[2] - e[1] <= 64 and v[0] in ("agg", "upd", "repeat", "bytes"):
             # constant sub-range of a value whose elements are known one by one
-            return ("agg", "array", None, None, tuple(proj_read(v, ("ci", i, False)) for i in range(e[1], e[2])))
+            return ("agg", "array", None, 0, tuple(proj_read(v, ("ci", i, False)) for i in range(e[1], e[2])))
         return ("subslice", v, e[1], e[2], e[3])
     return ("unknown", "proj")
 
